@@ -24,7 +24,7 @@ Init == /\ \E s \in Sizes : nx = s[1] /\ ny = s[2]
         /\ d = NoData
 Pick == /\ d = NoData
         /\ IF ck = "rows" THEN \E row \in [1..nx -> {R(v) : v \in DataVals2}] : d' = [c \in 1..(nx * ny) |-> row[((c - 1) % nx) + 1]]
-           ELSE d' \in [1..(nx * ny) -> {R(v) : v \in DataVals2}]
+           ELSE d' \in [1..(nx * ny) -> {R(v) : v \in (IF nx * ny > 6 THEN {0, 1} ELSE DataVals2)}]   \* 3^9 data sets are too many
         /\ UNCHANGED <<nx, ny, recon, bc, ck>>
 Spec == Init /\ [][Pick]_vars
 Has == d # NoData
